@@ -13,13 +13,22 @@ def degenerate_e2e(rng, cid):
         # every record has zero weight in every layer: vertices but no edge at all (all normalisers are exactly 0)
         e = {'L': e['L'], 'recs': [(s, t, [('0.0' if types[1] == 'r' else '0')] * e['L']) for s, t, _ in e['recs']]}
     line, m = gen.gen_e2e(rng, cid, variant=variant, types=types, edges=e, maxit_max=60, r_max=3, K=rng.choice([2, 3, 5]))
-    if m['from_init'] and rng.chance(0.5):
-        # zero a whole layer / most entries of the supplied affinity
+    if m['from_init'] and rng.chance(0.65):
         aff = list(m['aff'])
         per = len(aff) // m['L']
-        a0 = rng.below(m['L'])
-        for p in range(per):
-            aff[a0 * per + p] = 0.0
+        if rng.chance(0.6):
+            # zero a whole layer / most entries of the supplied affinity
+            a0 = rng.below(m['L'])
+            for p in range(per):
+                aff[a0 * per + p] = 0.0
+        else:
+            # one group's affinity huge against the others: its whole membership column is pushed under the 1e-6 cut-off by the first
+            # sweep and snapped to zero, so that a later normaliser (column sum x column sum) is EXACTLY zero although the network has edges
+            aff = [1.0] * len(aff)
+            g = rng.below(m['K'])
+            big = rng.choice([1e7, 1e9, 1e12])
+            for a in range(m['L']):
+                aff[(g + a * m['K']) if m['assort'] else (g + g * m['K'] + a * m['K'] * m['K'])] = big
         recs = m['recs']
         line = gen.e2e_case(cid, m['directed'], m['assort'], True, m['ltype'], m['wtype'], m['r'], m['maxit'], m['nconv'], m['seed'],
                             [s for s, _, _ in recs], [t for _, t, _ in recs], [w for _, _, ws in recs for w in ws], aff, m['N'], m['K'], m['u0'],
